@@ -375,7 +375,7 @@ Plan generate(uint64_t seed, const std::string& focus) {
         case SK::FPingSilent: s.a = 1; break;
         case SK::FHostileWindow: s.a = r.chance(0.8); s.b = (int)r.pick<int>({100, 300, 600, 1000}); break;
         case SK::FShutdownDelay: s.t = r.pick<ns_t>({0, 100 * MS, 4900 * MS, 5 * SEC, 5100 * MS, 7 * SEC}); break;
-        case SK::FRaceTimer: s.a = (int)r.below(3); break;
+        case SK::FRaceTimer: s.a = (int)r.below(3); s.b = r.chance(focus == "C12" ? 0.6 : 0.3); break;
         default: break;
         }
         push(std::move(s));
